@@ -17,7 +17,10 @@ Grammar family (all choices LL(1) by construction so the derivation is the parse
                  rules (default scope provider, globally unique names, also pointing
                  up the tree), unassigned common-rule call (object that is in no attribute),
                  unassigned match-rule call
-  user classes   for some common rules (three flavours of __init__)
+  user classes   for some common rules (three flavours of __init__); with want_traits also
+                 "traits": special methods that textX has to tolerate on model objects (TRAITS):
+                 always falsy, container-like (__len__ = number of items in the list
+                 attributes, so empty instances are falsy), iterable, unhashable
 """
 import os
 import shutil
@@ -47,7 +50,19 @@ class _Kw:
         return k
 
 
-def gen_grammar(rng, max_common=6, want_refs=True, want_user=True):
+# special-method traits of user classes (any subset; see make_user_class)
+TRAITS = ["falsy", "len", "iter", "nohash"]
+
+
+def gen_traits(rng):
+    """a non-trivial mix: half of the user classes are plain, the others get 1-3 traits"""
+    if rng.chance(0.4):
+        return []
+    k = rng.weighted([(1, 5), (2, 3), (3, 1)])
+    return sorted(rng.sample(TRAITS, k))
+
+
+def gen_grammar(rng, max_common=6, want_refs=True, want_user=True, want_traits=False, p_user=0.2):
     kw = _Kw()
     nc = rng.randint(2, max_common)
     na = rng.randint(0, 3)
@@ -168,8 +183,10 @@ def gen_grammar(rng, max_common=6, want_refs=True, want_user=True):
         elif rng.chance(0.3):
             elems.append({"k": "kw", "v": ";"})
         r["elems"] = elems
-        if want_user and rng.chance(0.2):
+        if want_user and rng.chance(p_user):
             r["user"] = rng.choice(["store", "child", "eq"])
+            if want_traits:
+                r["traits"] = gen_traits(rng)
     gram = {"rules": [rules[n] for n in commons + abstracts + matches],
             "comment": rng.chance(0.75),
             "opts": {"auto_init_attributes": rng.chance(0.8), "memoization": rng.chance(0.2),
@@ -666,27 +683,76 @@ def expected(gram, tree, layout, translate=False):
 # --------------------------------------------------------------------------
 # running the real code
 # --------------------------------------------------------------------------
-def make_user_class(name, flavour):
+def list_attrs(rule):
+    """names of the list-valued containment attributes of a common rule (from the grammar AST):
+    lists of objects / match-rule values and lists of primitives (textX: cont and mult * / +);
+    lists of references are not containment"""
+    out = []
+    for e in rule["elems"]:
+        if (e["k"] == "cont" and e["mult"] not in ("one", "opt")) or (e["k"] == "prim" and e["mult"] == "star"):
+            if e["attr"] not in out:
+                out.append(e["attr"])
+    return out
+
+
+def truth_spec(gram, names):
+    """[[class index, "f" | "l"]] for the user classes whose instances are not always truthy
+    ("f": never, "l": iff one of the list_attrs has an item) — the `truth` field of the Lean
+    driver's build request"""
+    out = []
+    for r in gram["rules"]:
+        t = r.get("traits") or ()
+        if r.get("user") and ("falsy" in t or "len" in t):
+            out.append([names.index(r["name"]), "f" if "falsy" in t else "l"])
+    return out
+
+
+def make_user_class(name, flavour, traits=(), lists=()):
+    """user class for rule `name`.  flavour = what __init__ does with `parent`;
+    traits = special methods that make the instances unusual Python values:
+      falsy   __bool__ is always False
+      len     container: __len__ = number of items in the list-valued containment attributes
+              (`lists`; an instance without items is falsy, a class without such attributes is
+              always falsy)
+      iter    iterating the object yields the items of those attributes
+      nohash  __eq__ without __hash__ (instances are unhashable)
+    The special methods only read attributes, also while the object is under construction."""
+    lists = list(lists)
+
+    def items(self):
+        out = []
+        for a in lists:
+            v = getattr(self, a, None)
+            if isinstance(v, list):
+                out.extend(v)
+        return out
+
+    ns = {}
     if flavour == "store":
         def __init__(self, parent=None, **kw):
             self.parent = parent
             for k, v in kw.items():
                 setattr(self, k, v)
-        return type(name, (), {"__init__": __init__})
-    if flavour == "child":
+    else:
         def __init__(self, parent=None, **kw):
             if parent is not None:
                 self.parent = parent
             for k, v in kw.items():
                 setattr(self, k, v)
-        return type(name, (), {"__init__": __init__})
-
-    def __init__(self, parent=None, **kw):
-        if parent is not None:
-            self.parent = parent
-        for k, v in kw.items():
-            setattr(self, k, v)
-    return type(name, (), {"__init__": __init__, "__eq__": lambda a, b: True, "__hash__": lambda a: 0})
+    ns["__init__"] = __init__
+    if flavour == "eq":
+        ns["__eq__"] = lambda a, b: True
+        ns["__hash__"] = lambda a: 0
+    if "falsy" in traits:
+        ns["__bool__"] = lambda self: False
+    if "len" in traits:
+        ns["__len__"] = lambda self: len(items(self))
+    if "iter" in traits:
+        ns["__iter__"] = lambda self: iter(items(self))
+    if "nohash" in traits and flavour != "eq":
+        ns["__eq__"] = lambda a, b: a is b
+        ns["__hash__"] = None
+    return type(name, (), ns)
 
 
 class Loaded:
@@ -701,7 +767,8 @@ def load(case):
     gram = case["gram"]
     L = Loaded()
     L.grammar = render_grammar(gram)
-    classes = [make_user_class(r["name"], r["user"]) for r in gram["rules"] if r.get("user")]
+    classes = [make_user_class(r["name"], r["user"], r.get("traits") or (), list_attrs(r))
+               for r in gram["rules"] if r.get("user")]
     L.file = None
     L.tmp = None
     L.text, L.exp = expected(gram, case["tree"], case["layout"], translate=bool(case.get("file")))
